@@ -382,6 +382,10 @@ func (n ambassador) findKeyByThumbprint(thumbPrint []byte, didDocumentAuthKeys [
 		if err != nil {
 			return nil, fmt.Errorf("unable to generate JWK from verificationMethod: %w", err)
 		}
+		if keyAsJWK == nil {
+			// verification method without publicKeyJwk (JWK() returns nil without error): can't be the signing key
+			continue
+		}
 		documentThumbprint, err := keyAsJWK.Thumbprint(thumbprintAlg)
 		if err != nil {
 			return nil, fmt.Errorf("unable to generate DID document signing key thumbprint: %w", err)
